@@ -1287,3 +1287,11 @@ P.theorems = P.theorems + [
     ("TracklibVerif.Tie.C10", "TV.Tie.C10.tie_proj_segment", "the Lean translation of the CURRENT source of geometry.proj_segment (with cartesienne, projection_droite) equals the model's projSegment on all arguments, exceptions included"),
     ("TracklibVerif.Tie.C10", "TV.Tie.C10.tie_projection_droite", "the translation of the CURRENT source of geometry.projection_droite equals the model's projectionDroite on all arguments"),
 ]
+P.theorems = P.theorems + [
+    ("TracklibVerif.Tie.C10", "TV.Tie.C10.tie_proj_polyligne", "the translation of the CURRENT source of geometry.proj_polyligne equals the model's projPolyligneXY (np=false, eps=1e-16) on all arguments whose kept distances are < inf (the sentinel 1e400), exceptions included"),
+    ("TracklibVerif.Tie.C10", "TV.Tie.C10.tie_proj_polyligne_pairs", "the translated proj_polyligne on the abscissas/ordinates of a vertex list equals the kernel model projPolyligne (same sentinel hypothesis), exceptions included"),
+]
+P.theorems = P.theorems + [
+    ("TracklibVerif.Tie.C10", "TV.Tie.C10.tie_proj_polyligne_exact", "EXACT (model correction): the translation of the CURRENT source of geometry.proj_polyligne equals the sentinel-faithful model projPolyligneXYS (np=false, sentinel inf, eps=1e-16) on ALL arguments, no sentinel hypothesis, exceptions included"),
+    ("TracklibVerif.Tie.C10", "TV.Tie.C10.tie_proj_polyligne_pairs_exact", "EXACT: the translated proj_polyligne on the abscissas/ordinates of a vertex list equals the sentinel-faithful kernel model projPolyligneS on ALL arguments (= projPolyligne whenever every distance met is < inf: Lemmas/ProjSentinel.lean)"),
+]
